@@ -210,10 +210,10 @@ CHECKS["C03"] = {
         "thorough": [{"pkg": "internal/forwarder", "entries": ["ZZ_C03_*"], "witnesses": 6, "max_paths": 3000000, "budget_s": 3000}],
     },
     "covers": {"all": ["ZZ_C03_URRPeriod:C03.urr.period.done", "ZZ_C03_CreateQER:C03.qer.done", "ZZ_C03_UpdateQER:C03.qer.done", "ZZ_C03_CreateURR:C03.urr.done", "ZZ_C03_CreateURR:C03.urr.perio",
-                       "ZZ_C03_CreateURR:C03.urr.nonperio", "ZZ_C03_UpdateURR:C03.urr.update.done", "ZZ_C03_RemoveURR:C03.rmurr.done",
+                       "ZZ_C03_CreateURR:C03.urr.nonperio", "ZZ_C03_CreateURR:C03.urr.perio-without-period", "ZZ_C03_UpdateURR:C03.urr.update.done", "ZZ_C03_RemoveURR:C03.rmurr.done",
                        "ZZ_C03_CreateBAR:C03.bar.done", "ZZ_C03_UpdateBAR:C03.bar.done", "ZZ_C03_RemoveQERBAR:C03.rm.done"]},
     "bounds": {
-        "quick": "Create/Update QER, URR, BAR and the removals with every IE payload byte, the SEID and the link index symbolic (40-bit rates, 64-bit volumes, flag octets, 32-bit periods >= 1 s); the Measurement Period attribute value for the concrete periods 1, 4, 5, 10, 60, 3600, 86400 and 2^32-1 s on Create and Update URR (must be the period in s, ms, us or ns without wrap-around); 3 presence profiles per rule kind (BAR: all 4 subsets); child order: every rotation, plain and reversed",
+        "quick": "Create/Update QER, URR, BAR and the removals with every IE payload byte, the SEID and the link index symbolic (40-bit rates, 64-bit volumes, flag octets, 32-bit periods >= 1 s); the Measurement Period attribute value for the concrete periods 1, 4, 5, 10, 60, 3600, 86400 and 2^32-1 s on Create and Update URR (must be the period in s, ms, us or ns without wrap-around); 3 presence profiles per rule kind (BAR: all 4 subsets), including a URR that asks for periodic reporting without a Measurement Period (must be refused: nothing registered, nothing sent to the kernel); child order: every rotation, plain and reversed",
         "thorough": "all 2^7 QER and 2^6 URR presence subsets, Reporting Triggers of 2 and 3 octets, all 7x7 non-empty threshold/quota flag subsets; same orders",
     },
     "outside": "duration thresholds, time quota, event-based IEs (not supported by the driver); IE lengths other than nominal (C07)",
@@ -232,9 +232,9 @@ CHECKS["C16"] = {
         "thorough": [{"pkg": "internal/forwarder", "entries": ["ZZ_C16_*"], "witnesses": 12, "max_paths": 3000000, "budget_s": 3000}],
     },
     "covers": {"all": ["ZZ_C16_Templates:C16.translated", "ZZ_C16_Templates:C16.rejected", "ZZ_C16_NearMiss:C16.nearmiss.done", "ZZ_C16_Bytes:C16.bytes.done",
-                       "ZZ_C16_ViaPDI:C16.pdi.done", "ZZ_C16_Tokens:C16.tokens.done", "ZZ_C16_Tokens:C16.tokens.cut", "ZZ_C16_Tokens:C16.tokens.missing", "ZZ_C16_Tokens:C16.tokens.exchanged"]},
+                       "ZZ_C16_ViaPDI:C16.pdi.done", "ZZ_C16_Twice:C16.twice.done", "ZZ_C16_Tokens:C16.tokens.done", "ZZ_C16_Tokens:C16.tokens.cut", "ZZ_C16_Tokens:C16.tokens.missing", "ZZ_C16_Tokens:C16.tokens.exchanged"]},
     "bounds": {
-        "quick": "24 rule templates (keywords fixed, every decimal digit symbolic): both directions, 'ip' or 1-3 protocol digits, addresses any/assigned/host/prefix with 1-3 digits per octet and 1-2 prefix digits, port lists of 0-2 items with 1-5 digits each, single/multiple blanks and tabs, each for uplink and downlink; near-miss keywords of 1-4 symbolic printable bytes at each of 4 keyword positions; arbitrary ASCII strings of <= 6 bytes; token-level damage (5 templates that between them hold every kind of word: the text cut after k words for every k, any one word missing, or any two neighbouring words exchanged) - rejected unless only a port list is gone, never a fault; the rule through newPdi with the SDF Filter IE before or after the Source Interface IE, for Access and Core",
+        "quick": "24 rule templates (keywords fixed, every decimal digit symbolic): both directions, 'ip' or 1-3 protocol digits, addresses any/assigned/host/prefix with 1-3 digits per octet and 1-2 prefix digits, port lists of 0-2 items with 1-5 digits each, single/multiple blanks and tabs, each for uplink and downlink; near-miss keywords of 1-4 symbolic printable bytes at each of 4 keyword positions; arbitrary ASCII strings of <= 6 bytes; token-level damage (5 templates that between them hold every kind of word: the text cut after k words for every k, any one word missing, or any two neighbouring words exchanged) - rejected unless only a port list is gone, never a fault; the rule through newPdi with the SDF Filter IE before or after the Source Interface IE, for Access and Core; the same rule translated 2-3 times in a row on one driver object with a symbolic direction each time and optionally another rule in between (no state carried from one translation to the next)",
         "thorough": "plus all pairs of digit counts for two octets and the prefix length, two 8-item port lists, arbitrary strings of <= 8 bytes",
     },
     "outside": "IPv6 addresses, digit-count combinations not listed, non-ASCII bytes, free strings longer than 8 bytes; 'deny' rules (the driver supports permit only)",
@@ -308,7 +308,7 @@ CHECKS["C20"] = {
     "pregen": "gen_c20",
     "jobs": {
         "quick": [{"pkg": "internal/forwarder", "entries": ["ZZ_C20_*"], "witnesses": 8, "max_paths": 100000},
-                  {"pkg": "pkg/factory", "entries": ["ZZ_C20_*"], "witnesses": 12000, "max_paths": 100000}],
+                  {"pkg": "pkg/factory", "entries": ["ZZ_C20_*"], "witnesses": 16000, "max_paths": 100000}],
         "thorough": [{"pkg": "internal/forwarder", "entries": ["ZZ_C20_*"], "witnesses": 24, "max_paths": 100000},
                      {"pkg": "pkg/factory", "entries": ["ZZ_C20_*"], "witnesses": 20000, "max_paths": 1000000}],
     },
@@ -316,7 +316,7 @@ CHECKS["C20"] = {
                        "ZZ_C20_NewDriver:C20.driver.started", "ZZ_C20_NewDriver:C20.driver.rejected", "ZZ_C20_NewDriver:C20.driver.open-failed",
                        "ZZ_C20_ReadConfig:C20.readconfig.accepted", "ZZ_C20_ReadConfig:C20.readconfig.rejected",
                        "ZZ_C20_Document:C20.document.accepted", "ZZ_C20_Document:C20.document.rejected"]},
-    "bounds": {"quick": "version strings [v]X.Y.Z with 1-2 symbolic digits per field (16 templates) through the real Gtp5g.checkVersion / gtp5gnl.GetVersion / DecodeVersion and go-version's LessThan / GreaterThanOrEqual, oracle = the property's window hard-wired; kernel faults; NewDriver over 5 configuration shapes x open success/failure with a symbolic MTU; ReadConfig with a symbolic failure Boolean per stage; configuration documents: a valid reference document with every choice of up to 2 faults among 17 fields (version, pfcp, pfcp.addr, nodeID, retransTimeout, maxRetrans, gtpu, forwarder, ifList, its addr/type/mtu, dnnList, its dnn/cidr, logger, level) x 7 kinds (deleted, emptied, invalid or out of range, mistyped, another valid value, near miss with something appended to a valid value, near miss with something in front of it; for the node id: an IPv6 literal) - and, when a fault sits in an interface or DNN entry, that entry either alone or second in its list behind an entry without fault - through ReadConfig with the validator model GENERATED from the struct tags of the working tree; oracle = the property's definition of a valid configuration written out by hand (zzSpecAccepts); every explored document (about 10 200) is replayed natively as a YAML file through the real yaml.v2, govalidator and ReadConfig",
+    "bounds": {"quick": "version strings [v]X.Y.Z with 1-2 symbolic digits per field (16 templates) through the real Gtp5g.checkVersion / gtp5gnl.GetVersion / DecodeVersion and go-version's LessThan / GreaterThanOrEqual, oracle = the property's window hard-wired; kernel faults; NewDriver over 5 configuration shapes x open success/failure with a symbolic MTU; ReadConfig with a symbolic failure Boolean per stage; configuration documents: a valid reference document with every choice of up to 2 faults among 17 fields (version, pfcp, pfcp.addr, nodeID, retransTimeout, maxRetrans, gtpu, forwarder, ifList, its addr/type/mtu, dnnList, its dnn/cidr, logger, level) x 8 kinds (deleted, emptied, invalid or out of range, mistyped, another valid value, near miss with something appended to a valid value, near miss with something in front of it, a valid value padded with a blank; for the node id: an IPv6 literal) - and, when a fault sits in an interface or DNN entry, that entry either alone or second in its list behind an entry without fault - through ReadConfig with the validator model GENERATED from the struct tags of the working tree; oracle = the property's definition of a valid configuration written out by hand (zzSpecAccepts); every explored document (about 13 400) is replayed natively as a YAML file through the real yaml.v2, govalidator and ReadConfig",
                "thorough": "same with up to 3 faults per document (88 486 documents, 20 000 of them replayed natively)"},
     "outside": "PARTIAL: configuration documents other than fault-perturbations of the one reference document (arbitrary YAML, unknown keys, several list entries, anchors/merges); validator tags outside the modelled vocabulary required/optional/in/host/cidr/ip/ipv4/dns/matches(small regex subset) (the check is then inconclusive, exit 2); node ids that are host names needing DNS; pre-release / metadata version suffixes; versions with more than 2 digits per field or other than 3 fields",
     "assumptions": FWD_ASSUME + ["go-version NewVersion/Compare replaced in the engine by Go-source models (overlays/go-version/version.go = the original file plus the models); the version harness is replayed natively against the real library",
